@@ -155,7 +155,31 @@ class Exec(Core):
             if isinstance(v, VNone):
                 return s.constructor(0)()
             return s.constructor(1)(self.flat(v, kind[1]))
+        if isinstance(kind, tuple) and kind[0] == 'union':
+            s = kind_sort(kind)
+            for i, k in enumerate(kind[1:]):
+                if k == 'none':
+                    if isinstance(v, VNone):
+                        return s.constructor(i)()
+                    continue
+                if self.fits(v, k):
+                    return s.constructor(i)(self.flat(v, k))
         self.limit(f'value {v} does not fit element kind {kind}')
+
+    def fits(self, v, k):
+        if k == 'int':
+            return isinstance(v, VInt) and not isinstance(v, VBool)
+        if k == 'bool':
+            return isinstance(v, VBool)
+        if k == 'str':
+            return isinstance(v, VStr)
+        if k == 'float':
+            return isinstance(v, VFloat)
+        if k == 'ref' or ref_cls(k):
+            return isinstance(v, VOpaque)
+        if isinstance(k, tuple) and k[0] == 'tuple':
+            return isinstance(v, VTuple) and len(v.items) == len(k) - 1 and all(self.fits(self.res(x), kk) for x, kk in zip(v.items, k[1:]))
+        return False
 
     def unflat(self, t, kind):
         if kind == 'int':
@@ -177,6 +201,14 @@ class Exec(Core):
             if kind[0] == 'opt':
                 return VUnion([(s.recognizer(0)(t), NONE),
                                (s.recognizer(1)(t), self.unflat(s.accessor(1, 0)(t), kind[1]))])
+            if kind[0] == 'union':
+                alts = []
+                for i, k in enumerate(kind[1:]):
+                    if k == 'none':
+                        alts.append((s.recognizer(i)(t), NONE))
+                    else:
+                        alts.append((s.recognizer(i)(t), self.unflat(s.accessor(i, 0)(t), k)))
+                return VUnion(alts)
         self.limit(f'cannot unflatten kind {kind}')
 
     def kind_of(self, v):
@@ -320,6 +352,8 @@ class Exec(Core):
             return a.name == b.name
         if type(a) is not type(b):
             return False
+        if isinstance(a, (VStr, VInt)) and z3.eq(a.t, b.t):
+            return True
         self.limit(f'identity of {a} and {b}')
 
     # ---- exceptions
